@@ -117,6 +117,17 @@ def _dw_case(case):
     if dw.canon(r2.sa) != dw.canon(sa) or r2.sa.get_total_num_points() != sa.get_total_num_points():
         fails.append(fail("observation_changes_run", "observed run (points/weights and interpolation queried at every evaluation): %d points, unobserved twin: %d points; structures equal: %r"
                           % (sa.get_total_num_points(), r2.sa.get_total_num_points(), dw.canon(r2.sa) == dw.canon(sa)), key))
+    # the same script, but the run is ended by its TIME budget (virtual clock) after the last-but-one evaluation (every state is the
+    # last-but-one state of each of its successors, so every evaluation index of every history is covered): a stop like any other -
+    # the reported value must be the combination of the scheme and grids the instance is left with
+    for k in range(max(len(history) - 1, 0), len(history)):
+        rt = dw.build(config, history, comps, n, time_stop=k)
+        rest = np.array(rt.result[3], dtype=float)
+        fresht, magt = _dw_fresh_sum(rt.sa, rt.op, config)
+        if rt.steps_executed != k or not _close(rest, fresht, magt):
+            fails.append(fail("time_budget_stop", "time budget expiring after evaluation %d of a %d-step script: %d refinement steps executed, reported %r, "
+                              "fresh component sum of the final structure %r" % (k, len(history), rt.steps_executed, rest, fresht), key))
+            break
     # from-scratch re-evaluation of the final refinement (done last: it may disturb the instance)
     ev = sa.evaluate_final_combi()
     if not _close(np.asarray(ev[0], dtype=float), res, mag):
@@ -199,6 +210,14 @@ def _es_case(case):
     if es.canon(r2.sa) != es.canon(sa) or r2.sa.get_total_num_points() != sa.get_total_num_points():
         fails.append(fail("twin_run_differs", "same history with reevaluate_at_end: %d points vs %d points; structures equal: %r"
                           % (r2.sa.get_total_num_points(), sa.get_total_num_points(), es.canon(r2.sa) == es.canon(sa)), key))
+    for k in range(max(len(history) - 1, 0), len(history)):
+        rt = es.build(config, history, comps, n, time_stop=k)
+        rest = np.array(rt.result[3], dtype=float)
+        fresht, magt, _ = _es_fresh_sum(rt.sa, rt.op, config)
+        if rt.steps_executed != k or not _close(rest, fresht, magt):
+            fails.append(fail("time_budget_stop", "time budget expiring after evaluation %d of a %d-step script: %d refinement steps executed, reported %r, "
+                              "fresh per-area component sum of the final structure %r" % (k, len(history), rt.steps_executed, rest, fresht), key))
+            break
     ev = sa.evaluate_final_combi()
     if not _close(np.asarray(ev[0], dtype=float), res, mag):
         fails.append(fail("evaluate_final_combi_differs", "reported %r, evaluate_final_combi %r" % (res, np.asarray(ev[0])), key))
